@@ -7,7 +7,7 @@ from common import *  # noqa
 ensure_env()
 from progcorpus import *  # noqa
 
-PROOF_FILES = ["Proofs/LowerCorrect.v", "Proofs/FlattenCorrect.v"]
+PROOF_FILES = ["Proofs/LowerFrame.v", "Proofs/LowerLemmas.v", "Proofs/LowerCorrect.v"]
 
 
 def sem_check(ck, model, rng, c, nctx, stats):
